@@ -217,6 +217,10 @@ def run(prop, tier=None, replay=None):
                         chk.violation(sig, "C10: %s tree of program %d not well formed: %s\n%s" % (where, c["id"], w[:3], c["src"][:400]),
                                       {"case": {k: c[k] for k in c if k != "stmts"}, "problems": w})
         classes.update(r.get("classes", ()))
+    if prop == "C02" and not replay:
+        from . import tokenise
+        tokenise.run_part(chk, tier)
+        chk.phase("placeholders")
     if classes:
         chk.cov["node_classes_seen"] = len(classes)
     if not replay:
